@@ -55,6 +55,10 @@ template <class T, size_t... D> void op_map_to_tensor(Ctx &c) {
     auto a = mkmap<T, D...>(c, 0, false), o = mkmap<T, D...>(c, 1, true);
     c.run([&] { Tensor<T, D...> t(a); t += a; o = t; });
 }
+template <class T, class U, size_t... D> void op_map_cast(Ctx &c) {
+    auto a = mkmap<T, D...>(c, 0, false); auto o = mkmap<U, D...>(c, 1, true);
+    c.run([&] { o = a.template cast<U>(); });
+}
 template <class T, size_t N> void op_map_inner_norm(Ctx &c) {
     auto a = mkmap<T, N>(c, 0, false), b = mkmap<T, N>(c, 1, false);
     T r[2] = {0, 0};
